@@ -58,3 +58,5 @@ pub const C19: u32 = 1 << 19;
 pub const C20: u32 = 1 << 20;
 /// every functional group (used by the configuration properties C17/C18)
 pub const ALL: u32 = C01 | C02 | C03 | C07 | C08 | C09 | C10 | C12 | C13 | C14 | C20;
+/// C18 harnesses: every functional group plus the lifecycle-order obligations
+pub const ALL18: u32 = ALL | C18;
